@@ -2,6 +2,7 @@
 package main
 
 import (
+	"runtime/pprof"
 	"flag"
 	"fmt"
 	"os"
@@ -16,6 +17,8 @@ import (
 	"verif/checker/internal/rules"
 )
 
+var stopProfile = func() {}
+
 func main() {
 	repo := flag.String("repo", "/repo", "repository working tree to analyse")
 	verif := flag.String("verif", "/verif", "verif directory (known findings, evidence)")
@@ -29,6 +32,12 @@ func main() {
 		*tier = t
 	}
 	seed, _ := strconv.ParseInt(os.Getenv("VERIF_SEED"), 10, 64)
+	if pf := os.Getenv("VERIF_CPUPROFILE"); pf != "" {
+		if f, err := os.Create(pf); err == nil {
+			pprof.StartCPUProfile(f)
+			stopProfile = func() { pprof.StopCPUProfile(); f.Close() }
+		}
+	}
 	rule, ok := rules.Registry[*prop]
 	if !ok {
 		fmt.Fprintf(os.Stderr, "unknown property %q\n", *prop)
@@ -79,7 +88,9 @@ func main() {
 	if *tier == "thorough" && os.Getenv("VERIF_NO_SENSITIVITY") == "" {
 		rep.Extra["sensitivity"] = sensitivity(*verif, *repo, *prop)
 	}
-	os.Exit(rep.Finish(*verif, *evid, known, cmdline))
+	rc := rep.Finish(*verif, *evid, known, cmdline)
+	stopProfile()
+	os.Exit(rc)
 }
 
 // sensitivity re-runs the property's rules on variants of the analysed tree: the current working
